@@ -36,7 +36,7 @@ type workerResult struct {
 	Directed   int               `json:"directed_runs"`
 	NonTrivial int               `json:"nontrivial_runs"`
 	Steps      int64             `json:"steps"`
-	SimNs      int64             `json:"sim_ns"`
+	SimS       float64           `json:"sim_s"`
 	Stats      map[string]int    `json:"stats"`
 	ByScenario map[string]int    `json:"by_scenario"`
 	KnownHits  map[string]int    `json:"known_hits"`
@@ -329,7 +329,7 @@ func main() {
 		total.Directed += r.Directed
 		total.NonTrivial += r.NonTrivial
 		total.Steps += r.Steps
-		total.SimNs += r.SimNs
+		total.SimS += r.SimS
 		for k, v := range r.Stats {
 			total.Stats[k] += v
 		}
@@ -453,7 +453,7 @@ func main() {
 			"directed_runs":            total.Directed,
 			"runs_by_scenario":         total.ByScenario,
 			"runs_per_hour":            int(float64(total.Runs) / (wall - buildS + 0.001) * 3600),
-			"simulated_seconds":        float64(total.SimNs) / 1e9,
+			"simulated_seconds":        total.SimS,
 			"scheduler_steps":          total.Steps,
 			"faults_fired":             faults,
 			"reach_probes":             probes,
@@ -491,7 +491,7 @@ func main() {
 		}
 	}
 	fmt.Printf("%s tier=%s seed=%d runs=%d (directed %d) distinct-nontrivial=%d sim=%.1fs wall=%.1fs violations=%d\n",
-		prop, *tier, seed, total.Runs, total.Directed, nd, float64(total.SimNs)/1e9, wall, len(confirmed))
+		prop, *tier, seed, total.Runs, total.Directed, nd, total.SimS, wall, len(confirmed))
 	if len(confirmed) > 0 {
 		for _, v := range confirmed {
 			fmt.Printf("  %s: %s\n", v.sig, v.msg)
